@@ -35,7 +35,8 @@ package armor
 //@ func NewWriter(dst) (wc)
 //@   requires dst != nil
 //@   ensures#type typeis(wc, "*filippo.io/age/armor.armoredWriter")                                                                  [C08]
-//@   ensures#init cast(wc, "filippo.io/age/armor.armoredWriter").dst == dst && !cast(wc, "filippo.io/age/armor.armoredWriter").started && !cast(wc, "filippo.io/age/armor.armoredWriter").closed && awinv(cast(wc, "filippo.io/age/armor.armoredWriter"))   [C01 C05 C08]
+//@   ensures#init cast(wc, "filippo.io/age/armor.armoredWriter").dst == dst && !cast(wc, "filippo.io/age/armor.armoredWriter").started && !cast(wc, "filippo.io/age/armor.armoredWriter").closed && awinv(cast(wc, "filippo.io/age/armor.armoredWriter"))   [C01 C05 C08 C13]
+//@   ensures#nowrite dst.$out == old(dst.$out)                                                                                      [C08 C13]
 //@   call NewWrappedBase64Encoder#1 requires arg0 == base64.StdEncoding && arg1 == dst                                               [C01 C05 C08]
 
 //@ func NewReader(r) (rd)
@@ -71,7 +72,7 @@ package armor
 //@   ensures#always err != nil                                                                                                      [C08 C13]
 //@   ensures#suffix issuffix(r.r.$rem, old(r.r.$rem)) && len(r.r.$rem) <= len(old(r.r.$rem))
 //@   ensures#bounded len(old(r.r.$rem)) - len(r.r.$rem) <= 1024                                                                      [C08 C12 C14]
-//@   ensures#eof err == io.EOF ==> len(r.r.$rem) == 0 && len(old(r.r.$rem)) < 1024 && allspace(old(r.r.$rem))                        [C08 C13]
+//@   ensures#eof err == io.EOF ==> len(r.r.$rem) == 0 && len(old(r.r.$rem)) < 1024 && allspace(old(r.r.$rem))                        [C08 C12 C13]
 //@   modifies r.r.$rem, r.r.$bufd, r.r.$under.$rem
 
 //@ func (*armoredReader).Read(r, p) (n, err)
